@@ -97,6 +97,8 @@ class Codec:
             return a["J"]
         if "cls" in a:
             return TARGETS[a["cls"]]()
+        if "new" in a:  # an object built for this call only: nobody keeps it afterwards
+            return TARGETS[a["new"]]()(*[self.dec(x) for x in a.get("a", [])], **{k: self.dec(v) for k, v in a.get("kw", {}).items()})
         if "call" in a:  # simulator-owned conversion callable (a peer)
             return make_callable(a["call"])
         raise TypeError("cannot decode %r" % (a,))
@@ -239,8 +241,47 @@ def _request_burst(n, prefix):
     return n
 
 
+def _lifetime_burst(items):
+    """The same list of closed calls twice: once with every object kept alive until the end, once
+    with every object dropped as soon as its call returned (what a loop over short-lived values
+    does: the next object may be allocated at the address of a dead one).  Returns both outcome
+    lists; they are compared by the oracle 'lifetime'."""
+    import gc
+
+    from . import fp as F
+
+    codec = Codec({})
+
+    def one(it, keep):
+        try:
+            if "fn" in it:
+                args = [codec.dec(a) for a in it["a"]]
+                r = PY.FUNCS[it["fn"]](*args)
+                objs = args
+            else:
+                obj = codec.dec(it["t"])
+                args = [codec.dec(a) for a in it["a"]]
+                r = getattr(obj, it["m"])(*args)
+                objs = [obj] + args
+            if keep is not None:
+                keep.extend(objs)
+                keep.append(r)
+            out = ["ok", F.fp(r)]
+        except Exception as e:
+            out = ["exc", F.exc_fp(e)]
+        return out
+
+    kept = []
+    a = [one(it, kept) for it in items]
+    del kept[:]
+    gc.collect()
+    b = [one(it, None) for it in items]
+    return {"kept": a, "dropped": b}
+
+
 class _Py:
     FUNCS = {
+        "lifetime_burst": _lifetime_burst,
         "request_burst": _request_burst,
         "register_box_conversion": _register_box_conversion,
         "add": operator.add,
@@ -374,9 +415,19 @@ class Interrupter:
 def call_op(codec, op):
     """Resolve and perform the call described by op. Raises SkipOp if an operand is missing."""
     t = op["t"]
-    target = codec.dec(t) if isinstance(t, dict) else TARGETS[t]()
-    args = [codec.dec(x) for x in op.get("a", [])]
-    kw = {k: codec.dec(v) for k, v in op.get("kw", {}).items()}
+    try:
+        target = codec.dec(t) if isinstance(t, dict) else TARGETS[t]()
+        args = [codec.dec(x) for x in op.get("a", [])]
+        kw = {k: codec.dec(v) for k, v in op.get("kw", {}).items()}
+    except SkipOp:
+        raise
+    except Exception as e:
+        # an operand built for this call only ({"new": ...}) could not be built: that is the
+        # library's answer to the whole request
+        def failed(e=e):
+            raise e
+
+        return failed, None, [], {}
     m = op["m"]
     if m == "()":
         return (lambda: target(*args, **kw)), target, args, kw
